@@ -156,6 +156,10 @@ def random_case(rng):
         else:
             pool = POOLS[rng.choice(list(POOLS))]
             by.append(["v", _rand_col(rng, n, pool[:rng.randint(1, len(pool))], rng.choice([0, .2, .5]))])
+            if rng.random() < 0.5:
+                # the external key vector carries a name - often the name of a table column, i.e. of another key
+                # (abs(t.x) keeps the name "x"): keys are told apart by what they hold, not by what they are called
+                by[-1].append(rng.choice(NAMES[:ncols] + ["k"]))
     if rng.random() < 0.5:
         reverse = rng.random() < 0.5
     else:
@@ -245,7 +249,7 @@ def observe(case):
             elif spec[0] == "c":
                 by.append(t[names[spec[1]]])
             else:
-                vec = Vector([V.dec(x) for x in spec[1]])
+                vec = Vector([V.dec(x) for x in spec[1]], name=(spec[2] if len(spec) > 2 else None))
                 vecs.append(vec)
                 by.append(vec)
         vpre = [[V.enc(x) for x in vec._underlying] for vec in vecs]
@@ -562,7 +566,7 @@ def shrink(case):
     n = len(cols[0]) if cols else 0
     for i in range(n):
         yield dict(case, cols=[c[:i] + c[i + 1:] for c in cols],
-                   by=[s if s[0] != "v" else ["v", s[1][:i] + s[1][i + 1:]] for s in by])
+                   by=[s if s[0] != "v" else ["v", s[1][:i] + s[1][i + 1:]] + s[2:] for s in by])
     if len(by) > 1:
         for k in range(len(by)):
             rv = case["reverse"]
